@@ -1,3 +1,6 @@
 import GlueVerif.Props.C20
 open GlueVerif.C20
 #print axioms findChunkShape_spec
+#print axioms combineNorm_correct
+#print axioms combineSlices_spec
+#print axioms iterLoop_eq_prod
